@@ -1060,24 +1060,34 @@ def run_decode_stream(ctx, n_random, n_round):
 
 
 def run(ctx):
-    ctx.rule = ("cases = (structured note array, keyword options) drawn from VERIF_SEED: 1-12 rows in random (mostly non-onset) order, "
-                "1-3 time-unit column pairs, optional velocity/channel columns, grid onsets k/16 against time_div in {1,2,4,8,16} "
-                "(exact half-frame ties) plus a share of off-grid float32 values and time_div in {3,5,10,12}; every boolean option, "
-                "pitch_margin, time_margin, end_time; plus the complete 2^7 x 3 x 3 x 2 option grid on fixed arrays; pitch-class cases; "
-                "random integer rolls for the inverse; grid-aligned non-touching round trips.  Non-trivial = accepted case with rows "
-                "out of onset order, a collision, a half-frame tie or a zero-length note (roll); two notes sharing a pitch class (pc); "
-                "more than one non-zero cell (decode); more than one note (round trip).  Distinct by the canonical JSON of the case.")
+    ctx.rule = ("cases = (structured note array, keyword options) drawn from VERIF_SEED: 1-12 rows in random (mostly non-onset) order "
+                "(12 % onset-descending, 5 % sorted), 1-3 time-unit column pairs with independent values (unit inference), optional "
+                "velocity (60 %) / channel (35 %, channel 9 weighted, sometimes all drums) columns, pitch pools forcing collisions and the "
+                "piano-range borders (20, 21, 108, 109, 120-127), grid onsets k/16 incl. negative ones against time_div in {1,2,4,8,16} "
+                "(exact half-frame ties), 15 % zero-length notes, 12 % off-grid float32 values, time_div in {3,5,10,12} and 'auto'; every "
+                "boolean option, pitch_margin, time_margin, end_time early / exact / late; ~3 % arrays outside the statement (negative "
+                "duration, pitch outside the roll, no note left: a refusal OR the literal reading is accepted, counted as "
+                "outside_statement_*); plus the complete 2^7 x 3 x 3 x 2 option grid on fixed arrays; pitch-class cases (octave-related "
+                "pitches, rows 120-127, normalize x binary); random integer rolls 128 x n / 88 x n (dense, csc, csr; touching runs of equal "
+                "and different value, negative values) for the inverse, judged as a multiset of (pitch, onset, duration, velocity); "
+                "grid-aligned non-touching round trips (half of them re-strike a pitch, mostly with exactly one empty frame between; with and "
+                "without remove_silence, early/late/negative start).  Non-trivial = accepted case with rows out of onset order, a collision, "
+                "a half-frame tie or a zero-length note (roll); two notes sharing a pitch class (pc); more than one non-zero cell (decode); "
+                "more than one note (round trip).  Distinct by the canonical JSON of the case.")
     ctx.trusted = ["Coq 8.16.1 kernel incl. vm_compute",
                    "harness/props/c13.py: array builder, run-length coding of toarray(), Coq term printers",
-                   "Model.C13 boolean checkers check_pianoroll / check_pc / check_decode (dense comparison by runs)",
+                   "Model.C13 boolean checkers check_pianoroll / check_pc / check_decode / check_roundtrip (dense comparison by runs; note lists up to order)",
                    "numpy/scipy toarray() and float32/float64 representation of dyadic rationals"]
     ctx.assumptions = ["time values are fed to the model as the exact rationals the float columns hold; cases where a float product is inexact and "
                        "the exact value is within 2^-30 of a rounding/comparison boundary are counted (near_tie_skipped) and not compared",
                        "pitch-class values are float64; each is mapped to the unique fraction with denominator <= 10^6 within 1e-12",
-                       "note-array f4 onsets/durations returned by pianoroll_to_notearray are read as k/time_div within 2^-20 relative",
-                       "pitches and velocities are Python/numpy integers (i4 overflow out of scope)"]
+                       "note-array onsets/durations returned by pianoroll_to_notearray are read as k/time_div within 2^-20 relative",
+                       "observables compared are those the statement names: shape, cell values (any container / numeric dtype), index rows "
+                       "(row, onset, offset; the pitch column when supplied), pitch-class values, the multiset of decoded (pitch, onset, duration, "
+                       "velocity); not compared: sparse format, dtype, exception class, field order, ids, row order of the decoded array",
+                       "pitches and velocities are Python/numpy integers, velocities 1..127 (i4 overflow and velocity 0 out of scope)"]
     global WITH_COQ
-    ok, why = ctx.coq_props(expect_min=33)
+    ok, why = ctx.coq_props(expect_min=35)
     WITH_COQ = bool(ok)
     quick = ctx.tier == "quick"
     rng = ctx.rng
